@@ -338,8 +338,21 @@ fn xml_style_comments_parser(
 
 fn c_style_multiline_comment_processor(comment: &str) -> String {
     let mut result = String::with_capacity(comment.len());
-    let open_idx = comment.find("/*").expect("expected '/*' in a comment");
-    let close_idx = comment.rfind("*/").expect("expected '*/' in a comment");
+    // Grammars may yield unterminated or degenerate block comments (e.g. "/*!/" or "/*/"):
+    // a missing delimiter is treated as absent instead of panicking.
+    let Some(open_idx) = comment.find("/*") else {
+        return comment.to_string();
+    };
+    let Some(close_idx) = comment[open_idx + 2..]
+        .rfind("*/")
+        .map(|idx| idx + open_idx + 2)
+    else {
+        let mut result = String::with_capacity(comment.len());
+        result.push_str(&comment[..open_idx]);
+        result.push_str("  ");
+        result.push_str(&comment[open_idx + 2..]);
+        return result;
+    };
     // Add everything before the "/*"
     result.push_str(&comment[..open_idx]);
     // Replace "/*" with spaces.
